@@ -51,8 +51,11 @@ def gen_seq(rng, i, tier):
         r = {"op": "restore", "sid": f"r{i}", "dir": new["dir"], "solver": kind, "id": pid}
         if not same:
             r["newdir"] = f"e{i}"
-        if rng.random() < 0.4:
+        u = rng.random()
+        if u < 0.4:
             r["f"] = rng.choice([1, 2]); r["m"] = rng.choice([1, 2, 4])
+        elif u < 0.6 or i % 6 == 1:
+            r["f"] = 0                    # override to "no checkpointing": nothing may be written afterwards, a new directory must not appear
         if rng.random() < 0.3:
             r["step"] = "earliest"      # resolved against the listing in the worker-independent way below
         ops.append(r)
